@@ -45,6 +45,10 @@ pub struct Case {
     /// and must resume its heartbeats
     #[serde(default)]
     pub stall_pct: Option<u8>,
+    /// in a case with silence: the client calls Connection::close at the moment the server goes
+    /// silent, so the silence has to be noticed by a connection that is closing
+    #[serde(default)]
+    pub close_into_silence: bool,
 }
 
 const LATE: Duration = Duration::from_millis(900);
@@ -67,6 +71,7 @@ pub fn exec(c: &Case) -> Outcome {
     let mut broker = AutoBroker::new(1);
     broker.auto_grant = false; // a deliberate stall must not make the broker spin
     let mut sess = open_session(&ccfg, scfg, vec![], broker);
+    let mut conn_slot = None;
     let mut conn = match sess.conn.take() {
         Some(c) => c,
         None => {
@@ -163,6 +168,10 @@ pub fn exec(c: &Case) -> Outcome {
             break;
         }
         let silent = silent_after.map_or(false, |s| now.duration_since(start) >= s);
+        if silent && h > 0 && c.close_into_silence && !c.trickle {
+            conn_slot = Some(());
+            break;
+        }
         if silent {
             // wait for the death: at most 2h + generous slack after the last byte
             if h == 0 {
@@ -209,6 +218,40 @@ pub fn exec(c: &Case) -> Outcome {
             next_feed += feed_every;
         }
         std::thread::sleep(Duration::from_millis(2));
+    }
+    if conn_slot.is_some() {
+        // the server says nothing from here on, not even CloseOk; the client closes right now
+        sess.broker.call(|b, _| b.mute = true);
+        stop.store(true, Ordering::SeqCst);
+        if let Some(p) = publisher {
+            let _ = p.join();
+        }
+        let t0 = Instant::now();
+        let close = timed(hdur * 2 + Duration::from_secs(4), "avh-c17-close-into-silence", move || conn.close());
+        let returned = Instant::now();
+        let io = wire.io_thread();
+        let _ = sess.broker.stop();
+        let ctx = format!("{:?} (negotiated {} s, Connection::close called {:?} after the last server byte)", c, h, t0.saturating_duration_since(last_server_byte));
+        if let (Some(t), true) = (io, close.is_some()) {
+            let p = take_panics(t);
+            if !p.is_empty() {
+                return Outcome::fail("io-thread-panic", format!("{} at {}", p[0].message, p[0].location));
+            }
+        }
+        let since = returned.saturating_duration_since(last_server_byte);
+        return match close {
+            None => Outcome::hang("silence-not-detected", format!("Connection::close into a silent server had not returned {:?} after the last server byte\n{}", since, ctx)),
+            Some(Err(Error::MissedServerHeartbeats)) => {
+                if since + EARLY < hdur * 2 {
+                    Outcome::fail("declared-dead-too-early", format!("MissedServerHeartbeats {:?} after the last server byte, must not be before {:?}\n{}", since, hdur * 2, ctx))
+                } else if since > hdur * 2 + LATE {
+                    Outcome::hang("death-detected-late", format!("MissedServerHeartbeats {:?} after the last server byte (limit {:?})\n{}", since, hdur * 2 + LATE, ctx))
+                } else {
+                    Outcome::pass(true).label(&format!("h={}", h)).label("silence").label("close-into-silence")
+                }
+            }
+            Some(other) => Outcome::fail("silence-wrong-error", format!("close into silence: {:?}\n{}", other, ctx)),
+        };
     }
     let alive = died_at.is_none();
     stop.store(true, Ordering::SeqCst);
@@ -339,8 +382,9 @@ fn strat(t: Tier) -> BoxedStrategy<Case> {
         prop_oneof![3 => Just(None), 1 => any::<u8>().prop_map(Some)],
         prop::bool::weighted(0.25),
         prop_oneof![4 => Just(None), 1 => any::<u8>().prop_map(Some)],
+        prop::bool::weighted(0.5),
     )
-        .prop_map(|(client_hb, server_hb, feed_pct, silent_after_ms, publish_pct, feed_other, slow_open_pct, trickle, stall_pct)| Case {
+        .prop_map(|(client_hb, server_hb, feed_pct, silent_after_ms, publish_pct, feed_other, slow_open_pct, trickle, stall_pct, close_into_silence)| Case {
             client_hb,
             server_hb,
             feed_pct,
@@ -350,6 +394,7 @@ fn strat(t: Tier) -> BoxedStrategy<Case> {
             slow_open_pct,
             trickle,
             stall_pct,
+            close_into_silence,
         })
         .boxed()
 }
@@ -357,7 +402,7 @@ fn strat(t: Tier) -> BoxedStrategy<Case> {
 pub fn parts() -> Vec<Box<dyn PartDyn>> {
     vec![Box::new(Part::<Case> {
         name: "timing",
-        rule: "client and server heartbeat options from {0, 1, 2 (3 in thorough), 60} (negotiated = minimum, 0 if either is 0), the server sending a heartbeat or another frame every 35-95 % of the interval either for the whole window (3h+1 s) or only until a generated moment after which it is silent, the client idle or publishing every 20-150 % of the interval, one case in four with the server's traffic being a single long frame trickled in pieces (no frame completes for more than two intervals), one in five with the transport accepting nothing for 1.2-1.6 intervals while a publisher keeps data queued (afterwards the client idles and must heartbeat again), one case in four against a slow server whose OpenOk arrives 1.1-1.6 intervals after Open (a timer deadline passes during the handshake); all cases of a run execute concurrently; oracle on the real clock: longest gap between client writes <= h + 0.9 s, a fed connection lives the whole window and closes Ok, silence ends the connection with MissedServerHeartbeats not before 2h - 0.05 s and (confirmed by re-execution) not after 2h + 0.9 s after the last server byte, h = 0 => no heartbeat frame and no failure in 2.5 s; every executed case is non-trivial; distinct by case hash",
+        rule: "client and server heartbeat options from {0, 1, 2 (3 in thorough), 60} (negotiated = minimum, 0 if either is 0), the server sending a heartbeat or another frame every 35-95 % of the interval either for the whole window (3h+1 s) or only until a generated moment after which it is silent, the client idle or publishing every 20-150 % of the interval, one case in four with the server's traffic being a single long frame trickled in pieces (no frame completes for more than two intervals), one in five with the transport accepting nothing for 1.2-1.6 intervals while a publisher keeps data queued (afterwards the client idles and must heartbeat again), half of the silence cases with the client calling Connection::close at the moment the server falls silent (no CloseOk comes: the close must fail with MissedServerHeartbeats under the same bounds), one case in four against a slow server whose OpenOk arrives 1.1-1.6 intervals after Open (a timer deadline passes during the handshake); all cases of a run execute concurrently; oracle on the real clock: longest gap between client writes <= h + 0.9 s, a fed connection lives the whole window and closes Ok, silence ends the connection with MissedServerHeartbeats not before 2h - 0.05 s and (confirmed by re-execution) not after 2h + 0.9 s after the last server byte, h = 0 => no heartbeat frame and no failure in 2.5 s; every executed case is non-trivial; distinct by case hash",
         cases: |t| t.pick(40, 384),
         threads: 64,
         strategy: strat,
